@@ -180,3 +180,7 @@ Print Assumptions C05_monitor_split.
 Print Assumptions C05_monitor_order.
 Print Assumptions C05_monitor.
 Print Assumptions C05_monitor_needs_uid_inj.
+
+(* the check of this property evaluates `mon_C05` and one more conjunct on every trace (Corr/CorrC05x.v: a delete the
+   API server rejected is never reported as successful); imported here so that it is built with this property *)
+From CliUtils Require Corr.CorrC05x.
